@@ -178,6 +178,9 @@ func (ex *Exec) step(st *State, fc *FnCtx, in ssa.Instruction, pred *ssa.BasicBl
 		ex.mapStore(st, mt, m, key, val)
 	case *ssa.MakeMap:
 		mt := x.Type().Underlying().(*types.Map)
+		if x.Reserve != nil {
+			ex.allocCheck(st, fc, x, resize(ex.term(st, x.Reserve), 64, isSigned(x.Reserve.Type())), mt.Elem())
+		}
 		r := ex.newRef(st)
 		pc := ex.mapPComp(st.heap, mt.Key(), mt.Elem())
 		_, ps, _ := arrayParts(pc.So)
